@@ -64,6 +64,7 @@ let handle (line : string) : string =
   match split_on ' ' line with
   | ["T"; cfgs; ops] -> run_case cfgs (split_on ';' ops)
   | "S" :: _ -> "S ok"
+  | "L" :: _ -> "L ok"
   | _ -> "BADCASE"
 
 let () = run_cases handle
